@@ -13,7 +13,7 @@ theorem tie_client_err : clientErrBranch = ["c.ErrorHandler", "c.disconnected", 
 theorem tie_client_cases : clientCases =
   [(["stanza.StreamError"], ["c.router.route", "c.streamError", "c.ErrorHandler", "c.Disconnect"]),
    (["stanza.SMRequest"], ["c.Send", "if:c.ErrorHandler", "if:c.disconnected", "if:return"]),
-   (["stanza.StreamClosePacket"], ["c.transport.ReceivedStreamClose", "return"]),
+   (["stanza.StreamClosePacket"], ["c.transport.ReceivedStreamClose", "c.disconnected", "return"]),
    (["stanza.Message", "stanza.Presence", "*stanza.IQ"], ["c.Session.SMState.Inbound++"])] := by decide
 theorem tie_client_after : clientAfterSwitch = ["go c.router.route"] := by decide
 theorem tie_component_err : componentErrBranch = ["c.updateState", "c.ErrorHandler", "return"] := by decide
